@@ -151,6 +151,21 @@ fn gen_special_value(t: &mut Tape, name: &str) -> Vec<u8> {
     }
 }
 
+/// Header values are mostly short; now and then long (beyond any plausible scratch size), rarely very long.
+fn gen_long_value(t: &mut Tape, obs: bool) -> Option<Vec<u8>> {
+    let n = match t.weighted(&[94, 4, 1, 1]) {
+        0 => return None,
+        1 => t.range(240, 700),
+        2 => t.range(1_000, 5_000),
+        _ => *t.pick(&[16_384usize, 40_000]),
+    };
+    let mut v = gen_value(t, 24, false, obs);
+    while v.len() < n {
+        v.push(b"abcdefghijklmnopqrstuvwxyz0123456789-_.~"[v.len() % 40]);
+    }
+    Some(v)
+}
+
 pub fn gen_case(t: &mut Tape, c16: bool) -> HeadCase {
     let (scheme, host, port, path, query) = gen_uri_parts(t);
     let v10 = t.chance(25);
@@ -191,6 +206,13 @@ pub fn gen_case(t: &mut Tape, c16: bool) -> HeadCase {
     for _ in 0..n_orig {
         let h = gen_plain_header(t, &orig, obs);
         orig.push(h);
+    }
+    // a long value now and then (the last header more often than not: it is the line the final empty line travels with)
+    if !orig.is_empty() {
+        if let Some(v) = gen_long_value(t, obs) {
+            let i = if t.bool() { orig.len() - 1 } else { t.below(orig.len()) };
+            orig[i].1 = v;
+        }
     }
     let insert_orig = |t: &mut Tape, orig: &mut Vec<(String, Vec<u8>)>, k: &str, v: Vec<u8>| {
         let name = if t.chance(30) { k.to_ascii_uppercase() } else { k.to_string() };
@@ -263,6 +285,15 @@ pub fn gen_case(t: &mut Tape, c16: bool) -> HeadCase {
         } else {
             let h = gen_plain_header(t, &added, obs);
             added.push(h);
+        }
+    }
+    {
+        let plain: Vec<usize> = added.iter().enumerate().filter(|(_, (k, _))| !crate::model::request::is_reserved_name(k) && !k.eq_ignore_ascii_case("transfer-encoding")).map(|(i, _)| i).collect();
+        if !plain.is_empty() {
+            if let Some(v) = gen_long_value(t, obs) {
+                let i = if t.bool() { *plain.last().unwrap() } else { *t.pick(&plain) };
+                added[i].1 = v;
+            }
         }
     }
     if api == ApiSel::Flow {
@@ -697,7 +728,7 @@ pub fn run_case(c: &HeadCase, t: &mut Tape, st: &mut Stats) -> Result<Outcome, S
     let eff = effective(c);
     // 1. canonical one-shot emission, validated against the model
     let mut canon_u = build_under(c)?;
-    let mut big = vec![0u8; 1 << 16];
+    let mut big = vec![0u8; 1 << 18];
     let n = canon_u.write(&mut big).map_err(|e| format!("one-shot head write failed: {:?}", e))?;
     let canon = big[..n].to_vec();
     let parsed = check_head(c, &eff, &canon)?;
